@@ -21,6 +21,7 @@ import IocProofs.Lemmas.SemCreate
 import IocProofs.Lemmas.M2IsCode
 import IocProofs.Lemmas.SemFactory2
 import IocProofs.Lemmas.SemDelegate
+import IocProofs.Lemmas.M2Lookups
 namespace Ioc.C03
 open Ioc.M2
 
@@ -307,5 +308,14 @@ theorem C03_retry_counterexample :
     Retry.a1.status = .failed 2 .refresh ∧ Retry.a1.l1 2 = none ∧
     Retry.a2.status = .failed 1 .refresh ∧ Retry.a2.l1 2 = some (raw 2) ∧ Retry.a2.fields 2 0 = [⟨1, 1⟩] ∧
     Retry.a3.status = .done ∧ Retry.a3.l1 1 = some ⟨1, 2⟩ ∧ Retry.a3.fields 2 0 = [⟨1, 1⟩] := by decide
+
+/-- the positive side of the retry story: over any sequence of lookups after the start none of which FAILS (substituting
+    post-processors, cycles, lazily created components included), every holder and the by-name lookup see the one version
+    that is published — the invariant of one start is carried from lookup to lookup (`Lc.lookupsAfter_inv`) -/
+theorem C03_no_stale_after_lookups (sc : Scen) (wf : WF sc) (ns : List Nat)
+    (hall : Lc.AllNF sc (final sc) ns) (hd : (Lc.lookupsAfter sc (final sc) ns).status = .done) :
+    ∀ k i o, o ∈ (Lc.lookupsAfter sc (final sc) ns).fields k i → (Lc.lookupsAfter sc (final sc) ns).l1 o.name = some o := by
+  obtain ⟨hi, hnf⟩ := Lc.lookupsAfter_inv sc wf ns (final sc) (inv_run sc wf (fuelBound sc)) hall
+  exact hi.quiescent hnf (hi.quiet (by rw [hd]; intro h'; cases h'))
 
 end Ioc.C03
